@@ -75,12 +75,33 @@ THEMES = {
                '>', '<=', '>=', 'instanceof', '>>', '>>>', '-', '/', '%',
                '?', ':', '||', '&&', '|', '^', '&', 'in'],
               {'quick': (14, 0), 'thorough': (15, 0)}),
+    # `/` after statement headers, blocks, keywords
+    'slash2': ('Program',
+               ['ID', 'REGEX', '/', ';', '(', ')', '{', '}', 'for', 'with',
+                'do', 'while', 'else', 'if', 'in', 'return', 'typeof', ','],
+               {'quick': (7, 0), 'thorough': (8, 1)}),
+    'slash3': ('Program',
+               ['ID', 'REGEX', '/', '/=', ';', '(', ')', '{', '}', '[', ']',
+                '++', '=', '.', 'IDN', 'function', 'NUM', '+', ':', '?'],
+               {'quick': (5, 1), 'thorough': (6, 2)}),
     # automatic semicolon insertion: terminators x line breaks
     'asi': ('Program',
             ['ID', ';', '{', '}', '(', ')', '=', '+', '++', 'return', 'var',
              'break', 'throw', 'do', 'while', 'if', 'else', 'for', 'REGEX',
              '/', ',', 'continue', 'debugger', '[', ']'],
             {'quick': (5, 1), 'thorough': (6, 2)}),
+    # restricted productions, postfix / prefix, member continuation
+    'asi2': ('Program',
+             ['ID', ';', '{', '}', '(', ')', '=', '+', '++', '--', 'return',
+              'var', 'break', 'throw', 'do', 'while', 'continue', 'debugger',
+              '[', ']', '-', 'NUM', 'function', '.', 'IDN', ','],
+             {'quick': (5, 1), 'thorough': (6, 2)}),
+    # terminators inside control structures; for headers; if/else
+    'asi3': ('Program',
+             ['ID', ';', '{', '}', '(', ')', 'return', 'break', 'throw',
+              'continue', 'if', 'else', 'for', 'while', 'do', 'var', '=',
+              'in'],
+             {'quick': (6, 1), 'thorough': (8, 2)}),
 }
 
 
